@@ -551,7 +551,7 @@ func TestC18Multicast(t *testing.T) {
 		hC18.Fail(t, "TestC18Multicast", *r.c, "%v", r.err)
 	}
 	if r.err != nil {
-		t.Fatal(r.err)
+		t.Fatalf("VERIF-HARNESS harness problem (not a finding about the library): %v", r.err) // the stage is undecided
 	}
 }
 
